@@ -11,6 +11,7 @@ CONSTANTS
  Cancels = FALSE
  Failures = FALSE
  Timeouts = TRUE
+ Evictions = FALSE
 CONSTRAINT Bound
 INVARIANT Inv_C01
 INVARIANT Inv_C06
